@@ -24,7 +24,8 @@ pub enum Event {
   /// one session requiring the roots in order
   TopDown(Vec<Tid>),
   /// one session: optional requires, bottom-up build reporting the resources in order, optional requires
-  BottomUp { pre: Vec<Tid>, reported: Vec<Rid>, then: Vec<Tid> },
+  /// `builds`: how many bottom-up builds (each reporting `reported`) the session runs one after the other (1 or 2)
+  BottomUp { pre: Vec<Tid>, reported: Vec<Rid>, then: Vec<Tid>, builds: u8 },
 }
 
 impl Event {
@@ -34,8 +35,8 @@ impl Event {
       Event::Set(r, c) => format!("Set(r{},{})", r, cell_to_string(*c)),
       Event::SetFail(r, b) => format!("SetFail(r{},{})", r, b),
       Event::TopDown(roots) => format!("TopDown[{}]", roots.iter().map(|t| format!("T{}", t)).collect::<Vec<_>>().join(",")),
-      Event::BottomUp { pre, reported, then } => format!(
-        "BottomUp{{pre:[{}],reported:[{}],then:[{}]}}",
+      Event::BottomUp { pre, reported, then, builds } => format!(
+        "BottomUp{}{{pre:[{}],reported:[{}],then:[{}]}}", if *builds > 1 { "x2" } else { "" },
         pre.iter().map(|t| format!("T{}", t)).collect::<Vec<_>>().join(","),
         reported.iter().map(|r| format!("r{}", r)).collect::<Vec<_>>().join(","),
         then.iter().map(|t| format!("T{}", t)).collect::<Vec<_>>().join(",")),
@@ -46,7 +47,7 @@ impl Event {
       Event::Set(r, c) => json!({"ev": "Set", "r": r, "v": cell_to_string(*c)}),
       Event::SetFail(r, b) => json!({"ev": "SetFail", "r": r, "v": b}),
       Event::TopDown(roots) => json!({"ev": "TopDown", "roots": roots}),
-      Event::BottomUp { pre, reported, then } => json!({"ev": "BottomUp", "pre": pre, "reported": reported, "then": then}),
+      Event::BottomUp { pre, reported, then, builds } => json!({"ev": "BottomUp", "pre": pre, "reported": reported, "then": then, "builds": builds}),
     }
   }
   pub fn from_json(v: &Value) -> Result<Event, String> {
@@ -61,7 +62,7 @@ impl Event {
       }
       "SetFail" => Ok(Event::SetFail(r, v.get("v").and_then(|x| x.as_bool()).ok_or("v")?)),
       "TopDown" => Ok(Event::TopDown(list("roots"))),
-      "BottomUp" => Ok(Event::BottomUp { pre: list("pre"), reported: list("reported"), then: list("then") }),
+      "BottomUp" => Ok(Event::BottomUp { pre: list("pre"), reported: list("reported"), then: list("then"), builds: v.get("builds").and_then(|x| x.as_u64()).unwrap_or(1) as u8 }),
       o => Err(format!("event {}", o)),
     }
   }
@@ -208,7 +209,7 @@ impl Live {
           Err(_) => Outcome::Panicked(take_last_panic().unwrap_or(PanicInfo { msg: "<unknown>".into(), file: String::new(), line: 0 })),
         }
       }
-      Event::BottomUp { pre, reported, then } => {
+      Event::BottomUp { pre, reported, then, builds } => {
         let pie = &mut self.pie;
         let res = catch_unwind(AssertUnwindSafe(|| {
           let mut session = pie.new_session();
@@ -219,15 +220,17 @@ impl Live {
             log(Ev::RootRet(*t, o));
             outs.push(o);
           }
-          log(Ev::BottomUpStart);
-          let mut bu = session.create_bottom_up_build();
-          for r in reported {
-            log(Ev::BottomUpSchedule(*r));
-            bu.schedule_tasks_affected_by(&VRes(*r));
+          for _ in 0..(*builds).max(1) {
+            log(Ev::BottomUpStart);
+            let mut bu = session.create_bottom_up_build();
+            for r in reported {
+              log(Ev::BottomUpSchedule(*r));
+              bu.schedule_tasks_affected_by(&VRes(*r));
+            }
+            log(Ev::BottomUpUpdate);
+            bu.update_affected_tasks();
+            log(Ev::BottomUpDone);
           }
-          log(Ev::BottomUpUpdate);
-          bu.update_affected_tasks();
-          log(Ev::BottomUpDone);
           for t in then {
             log(Ev::RootReq(*t));
             let o = session.require(&VTask(*t));
